@@ -303,13 +303,20 @@ def _mp_tile_worker(queue, done_event, pio, reproject_function, kwargs):
     invert_into_tiles = pio.get_default_vertical_parity_sign() == 1
 
     while True:
+        # Sample the shutdown flag *before* polling the queue. The flag is only
+        # raised once every item has been flushed into the queue, so if it was
+        # already up and the queue then turns out to be empty, nothing more can
+        # arrive. Testing it only after the timeout could miss items enqueued
+        # between the timeout and the test.
+        done = done_event.is_set()
+
         try:
             # un-pickling WCS objects always triggers warnings right now
             with warnings.catch_warnings():
                 warnings.simplefilter("ignore")
                 image, desc, combined_wcs = queue.get(True, timeout=10)
         except Empty:
-            if done_event.is_set():
+            if done:
                 break
             continue
 
